@@ -41,14 +41,14 @@ theorem newline_inside_brackets_ignored (st : LexSt) (cs : List Char) (h : st.de
 theorem comment_is_skipped (st : LexSt) (cs : List Char) :
     lexStep st ('#' :: cs) =
       .skip { st with pos := st.pos + 1 + (cs.length - (dropLine cs).length) } (dropLine cs) := by
-  simp [lexStep, matchString, isQuote, classify]
+  simp [lexStep, lexBracket, lexWord, lexPunct, matchString, isQuote, classify]
 
 /-- opening / closing brackets move the depth by ±1 -/
 theorem brackets_track_depth (st : LexSt) (cs : List Char) :
     lexStep st ('(' :: cs) = mk .LPAREN ['('] st 1 1 cs ∧ lexStep st (')' :: cs) = mk .RPAREN [')'] st 1 (-1) cs ∧
     lexStep st ('[' :: cs) = mk .LBRACKET ['['] st 1 1 cs ∧ lexStep st (']' :: cs) = mk .RBRACKET [']'] st 1 (-1) cs ∧
     lexStep st ('{' :: cs) = mk .LBRACE ['{'] st 1 1 cs ∧ lexStep st ('}' :: cs) = mk .RBRACE ['}'] st 1 (-1) cs := by
-  refine ⟨?_, ?_, ?_, ?_, ?_, ?_⟩ <;> simp [lexStep]
+  refine ⟨?_, ?_, ?_, ?_, ?_, ?_⟩ <;> simp [lexStep, lexBracket]
 
 /-- blank statements are dropped: an empty statement contributes no line to the program -/
 theorem blank_statement_dropped (f : Nat) (t : Token) (rest : List Token) (h : t.ty = .NEWLINE) :
